@@ -80,7 +80,7 @@ func zxMapEq(x, y map[string]float64) bool {
 // the inserts up to the recovered offset, each once; field a keeps its values across the
 // alteration; field b holds exactly the values of the points processed after the alteration.
 //
-//zx:harness prop=C15+C02+C03 id=P tier=quick env=fs shard=script:6 maxops=60
+//zx:harness prop=C15+C02+C03 id=P tier=quick env=fs shard=script:6 maxops=60 thorough.maxops=120
 func zxC15ProcessInserts() {
 	zxFSReset()
 	oldFields := core.Fields{core.PointsField, zxFieldA}
